@@ -448,22 +448,33 @@ def w2_scan(F, R, tadt):
         if F.handwritten(b) and any(bl['term']['k'] == 'call' and bl['term'].get('fn') in adm0 for bl in b['blocks']):
             adm1.add(b['id'])
 
-    def helper(bb):
-        return F.handwritten(bb) and not bb.get('pub') and not has_loop(bb) and bb['id'] not in adm1 and bb['id'].startswith('transport::pci::') \
+    def helper(bb, loops=False):
+        return F.handwritten(bb) and not bb.get('pub') and (loops or not has_loop(bb)) and bb['id'] not in adm1 and bb['id'].startswith('transport::pci::') \
             and 'impl_trait' not in bb and not bb['id'].startswith('transport::pci::bus::')
+    # the scan may live in the constructor or in a private free function of the module that the constructor calls
+    scan_helpers = set()
+    for b in F.bodies.values():
+        if b['kind'] == 'Fn' and helper(b, loops=True) and has_loop(b) and any(
+                bl['term']['k'] == 'call' and bl['term'].get('trait') == CFGACC for bl in b['blocks']):
+            scan_helpers.add(b['id'])
+
+    def opaque_for(me):
+        return lambda t, bb: bb['id'] != me and not helper(bb) and bb['id'] not in scan_helpers
     ctor = None
     for b in F.bodies.values():
-        if b.get('impl_adt') == tadt and 'impl_trait' not in b and F.handwritten(b) and b['kind'] == 'AssocFn' and has_loop(b):
-            sg_ = supergraph(F, b['id'], opaque=lambda t, bb, me=b['id']: bb['id'] != me and not helper(bb), tag='w2')
-            if any(True for _ in sg_.calls(lambda d: d.get('trait') == CFGACC)):
+        if b.get('impl_adt') == tadt and 'impl_trait' not in b and F.handwritten(b) and b['kind'] == 'AssocFn' and (
+                has_loop(b) or any(bl['term']['k'] == 'call' and bl['term'].get('fn') in scan_helpers for bl in b['blocks'])):
+            sg_ = supergraph(F, b['id'], opaque=opaque_for(b['id']), tag='w2')
+            if any(True for _ in sg_.calls(lambda d: d.get('trait') == CFGACC)) and back_edges(sg_):
                 ctor = b
     if not ctor:
         raise Undecided('PCI transport constructor with the capability loop not found')
-    sg = supergraph(F, ctor['id'], opaque=lambda t, bb: bb['id'] != ctor['id'] and not helper(bb), tag='w2')
+    sg = supergraph(F, ctor['id'], opaque=opaque_for(ctor['id']), tag='w2')
     S = sg.sym
     where = fn_site(F, ctor['id'])
     be = back_edges(sg)
     loop_nodes = set()
+    sctxs = set()
     for (u, v) in be:
         # natural loop of back edge u->v
         body = {v}
@@ -475,10 +486,16 @@ def w2_scan(F, R, tadt):
             body.add(x)
             st.extend(sg.nodes[x].pred)
         loop_nodes |= body
+        if any(sg.nodes[x].kind == 'call' and sg.nodes[x].d.get('trait') == CFGACC for x in body):
+            sctxs.add(sg.nodes[v].ctx)
+    if len(sctxs) != 1:
+        raise Undecided('capability loop of the PCI transport constructor not identified (%d candidates)' % len(sctxs))
+    sctx = sctxs.pop()
+    sfn = sg.ctxs[sctx].fn
     # candidate variables: places (a local, or a field of a local struct) assigned both before the loop and inside it
     def place_key(pl):
         names = []
-        ty = sg.entry_fn['locals'][pl['l']]['ty']
+        ty = sfn['locals'][pl['l']]['ty']
         for pp in pl['p']:
             if isinstance(pp, dict) and 'f' in pp and 'dc' not in pp:
                 names.append(pp['n'])
@@ -490,9 +507,9 @@ def w2_scan(F, R, tadt):
     ktype = {}
     for n in sg.nodes:
         pl = None
-        if n.ctx == 0 and n.kind == 'assign':
+        if n.ctx == sctx and n.kind == 'assign':
             pl = n.d['place']
-        if n.ctx == 0 and n.kind == 'call' and n.inl is None:
+        if n.ctx == sctx and n.kind == 'call' and n.inl is None:
             pl = n.d['dest']
         if pl is None:
             continue
@@ -503,7 +520,7 @@ def w2_scan(F, R, tadt):
         ktype[k] = ty
 
     def kname(k):
-        return k[1][-1] if k[1] else sg.entry_fn['locals'][k[0]].get('name')
+        return k[1][-1] if k[1] else sfn['locals'][k[0]].get('name')
     cands = {}
     for k, ns in assigns.items():
         inside = [x for x in ns if x in loop_nodes]
@@ -518,7 +535,7 @@ def w2_scan(F, R, tadt):
         info_adt = t[len('core::option::Option<'):-1]
 
     def key_of_ref(tgt):
-        if tgt[0] == 'ref' and tgt[1][1][0] == 'local' and tgt[1][1][1] == 0 and all(pp[0] == 'f' for pp in tgt[1][2]):
+        if tgt[0] == 'ref' and tgt[1][1][0] == 'local' and tgt[1][1][1] == sctx and all(pp[0] == 'f' for pp in tgt[1][2]):
             return (tgt[1][1][2], tuple(pp[1] for pp in tgt[1][2]))
         return None
     # fold helper for guards
@@ -572,8 +589,11 @@ def w2_scan(F, R, tadt):
         R.check(bars == [0, 1, 4, 5], 'W2', inst + ':valid-bars', site(sg, a), 'capabilities in every BAR 0..5 are used',
                 'a capability located in BAR %s is ignored although BAR numbers 0..5 are valid: a device that places this structure there cannot be driven' % [b_ for b_ in (0, 1, 4, 5) if b_ not in bars])
     want_types = sorted(sum(kinds.values(), []))
-    R.check(sorted(set(want_types)) == [1, 2, 3, 4], 'W2', '%s:all-four-types' % ctor['id'], where, 'common/notify/isr/device windows are all scanned',
-            'capability types scanned: %s' % want_types)
+    if len(kinds) < len(results):
+        R.abstain('W2', '%s:all-four-types' % ctor['id'], 'the guards of %d scan assignment(s) could not be folded' % (len(results) - len(kinds)), where)
+    else:
+        R.check(sorted(set(want_types)) == [1, 2, 3, 4], 'W2', '%s:all-four-types' % ctor['id'], where, 'common/notify/isr/device windows are all scanned',
+                'capability types scanned: %s' % want_types)
     # field offsets of the capability reads
     infos = [n for n in sg.nodes if n.kind == 'assign' and n.d['rv']['rv'] == 'agg' and n.d['rv'].get('adt') == info_adt]
     R.count('capability_info_sites', len(infos))
@@ -607,11 +627,14 @@ def w2_scan(F, R, tadt):
     mult_guard = False
     mult_offs = set()
     for n in sg.nodes:
-        if n.ctx == 0 and n.kind == 'switch':
+        if n.kind == 'switch':
             d = S.operand(n.id, n.d['discr'])
             for x in subterms(d):
                 if x[0] == 'bin' and x[1] == 'Rem' and fold_const(x[3]) == 2:
                     mult_guard = True
+                    import os
+                    if os.environ.get('VQ_DBG'):
+                        print('DBG mult', fmt(x[2]), x[2])
                     for y in deep_subterms(S, x[2]):
                         if y[0] == 'call' and y[2].endswith('read_word') and len(y[3]) > 2:
                             mult_offs.add(cap_rel_offset(y[3][2]))
@@ -619,7 +642,7 @@ def w2_scan(F, R, tadt):
     # polarity: an odd multiplier takes the edge that constructs the error, an even one does not
     pol = None
     for n in sg.nodes:
-        if n.ctx == 0 and n.kind == 'switch':
+        if n.kind == 'switch':
             d = S.operand(n.id, n.d['discr'])
             rems = [x for x in subterms(d) if x[0] == 'bin' and x[1] == 'Rem' and fold_const(x[3]) == 2]
             if not rems:
